@@ -53,7 +53,8 @@ RULE = ("operation sequences over the closed key family (int, str, a synthesised
         "their module / its dotted parts / ending with its name, shadowing top-level classes, same-named classes in two modules, "
         "function-local classes, NewTypes and TypeAliasTypes under their own and other names, namespaces Python does not "
         "guarantee): for every object refs.forwardref / inspection.qualname / name / refs.evaluate, and refs.forwardref(text, "
-        "module=m) for every binding path bare and module-prefixed, against the Lean model; and for every class bound at its "
+        "module=m) for every binding path bare and module-prefixed and for texts naming several module-qualified classes "
+        "(`m.P | m.A.B`, `dict[str, m.P]`; evaluation against Python's own eval), against the Lean model; and for every class bound at its "
         "qualified name ctx[cls] / ctx.get(cls) with the value stored under typing.ForwardRef(__qualname__, module=__module__).")
 ASSUMPTIONS = [
     "values are opaque to TypeContext (it never inspects them): distinct integers per position are the general case",
@@ -627,11 +628,20 @@ class Order:
         # a class nested in a class, named like a top-level one: the reference naming it carries its QUALIFIED name
         m: int = 0
 NOI = typing.NewType("NOI", Order.Item)
+@typing.final
+@dataclasses.dataclass
+class Sealed:
+    # a class marked @typing.final is an ordinary key (the decorator is not the Final[...] qualifier)
+    x: int = 0
+NSealed = typing.NewType("NSealed", Sealed)
+ASealed = typing.TypeAliasType("ASealed", Sealed)
 """
 # (wrapper expression, base expression, intermediate wrappers that a caller may look up in between)
 DEEP_CHAINS = [("NA", "K", ["A"]), ("NN", "K", ["N"]), ("NNA", "K", ["NA", "A"]), ("AN", "K", ["N"]), ("AA", "K", ["A"]),
                ("ANA", "K", ["NA", "A"]), ("typing.Final[NA]", "K", ["NA", "A"]), ("typing.Final[AN]", "K", ["AN", "N"]),
-               ("typing.ClassVar[NA]", "K", ["NA"]), ("NIA", "int", ["IA"]), ("typing.Final[NIA]", "int", ["NIA", "IA"])]
+               ("typing.ClassVar[NA]", "K", ["NA"]), ("NIA", "int", ["IA"]), ("typing.Final[NIA]", "int", ["NIA", "IA"]),
+               ("Sealed", "Sealed", []), ("NSealed", "Sealed", []), ("ASealed", "Sealed", []), ("typing.Final[Sealed]", "Sealed", ["NSealed"]),
+               ("typing.ClassVar[ASealed]", "Sealed", ["ASealed"])]
 
 
 def _deep_child(_job):
@@ -645,11 +655,20 @@ def _deep_child(_job):
     bad = []
     v, d = object(), object()
 
+    # (lookups go through guards: an exception other than KeyError is an observation, not a crash of the probe)
     def look(c, k):
         try:
             return c[k]
         except KeyError:
             return KeyError
+        except Exception as e:  # noqa: BLE001
+            return ("raised", type(e).__name__)
+
+    def get(c, k, dflt):
+        try:
+            return c.get(k, dflt)
+        except Exception as e:  # noqa: BLE001
+            return ("raised", type(e).__name__)
     for w, b, mids in DEEP_CHAINS:
         W, B = eval(w, ns), eval(b, ns)
         c = tctx.TypeContext()
@@ -658,19 +677,19 @@ def _deep_child(_job):
             bad.append([w, f"ctx[{b}] = v; ctx[{w}] is {'KeyError' if look(c, W) is KeyError else 'another value'}, not v (the value stored under its unwrapped form)"])
         c = tctx.TypeContext()
         c[B] = v
-        g1 = c.get(W, d)
+        g1 = get(c, W, d)
         for m in mids:
-            c.get(eval(m, ns), d)
+            get(c, eval(m, ns), d)
             look(c, eval(m, ns))
-        g2 = c.get(W, d)
+        g2 = get(c, W, d)
         if g1 is not v or g2 is not v:
             bad.append([w, f"ctx[{b}] = v; get({w}, d) is {'v' if g1 is v else 'd'} before and {'v' if g2 is v else 'd'} after looking up {mids}: must be v both times"])
         c = tctx.TypeContext()
-        if look(c, W) is not KeyError or c.get(W, d) is not d:
+        if look(c, W) is not KeyError or get(c, W, d) is not d:
             bad.append([w, f"absent key {w}: subscription must raise KeyError and get must give the default"])
         for m in mids:
             look(c, eval(m, ns))
-        if look(c, W) is not KeyError or c.get(W, d) is not d:
+        if look(c, W) is not KeyError or get(c, W, d) is not d:
             bad.append([w, f"absent key {w} after looking up {mids} (all absent): must still be absent"])
     # nested classes: found under the forward reference naming them by qualified name, and only under that one
     top, nested = object(), object()
@@ -684,7 +703,7 @@ def _deep_child(_job):
                            f"{'KeyError' if got is KeyError else ('the top-level one' if got is top else 'the nested one')}, expected the {label} one"])
     c = tctx.TypeContext()
     c[typing.ForwardRef("Item", module="c16_deep", is_class=True)] = top
-    if look(c, ns["Order"].Item) is not KeyError or c.get(ns["Order"].Item, d) is not d:
+    if look(c, ns["Order"].Item) is not KeyError or get(c, ns["Order"].Item, d) is not d:
         bad.append(["Order.Item", "only ForwardRef('Item') (the top-level class) is stored: ctx[Order.Item] must be absent"])
     # a string-valued alias unwraps to the reference in its value: a NewType over it finds what is stored under that reference
     r = object()
